@@ -818,6 +818,9 @@ spec_fn(
             dict(name="fit", induct="n", lo=0, hi="N",
                  stmt="implies(" + _LOK + ", forall(0, n, lambda p: c04_offr(L, p) + toint(L[p]) <= c04_offr(L, n),"
                       " pat=((c04_offr(L, p), c04_offr(L, n)),)))"),
+            # the same offsets computed from the lengths converted with .astype("int") (what the curvature routines receive)
+            dict(name="asint", induct="n", lo=0, hi="N",
+                 stmt="c04_offr(L, n) == c04_off(arr1(N, lambda j: toint(L[j])), n)"),
             # the float sum numpy computes is this integer (for integer-valued non-negative entries)
             dict(name="npsum", induct="n", lo=0, hi="N",
                  stmt="implies(" + _LOK + ", toreal(c04_offr(L, n)) == c04_psum(L, n))")],
@@ -901,10 +904,11 @@ _SORTED = ("forall(0, N, lambda p: forall(p + 1, N, lambda q: nfs[p, 0] < nfs[q,
 _INWIN = "(nfs[{q}, 0] - nfs[ip0, 0] <= 2 * hy and nfs[{q}, 1] - nfs[ip0, 1] <= 2 * hx and nfs[ip0, 1] - nfs[{q}, 1] <= 2 * hx)"
 _RANK = "((nfs[{q}, 0] - nfs[ip0, 0]) * (4 * hx + 1) + nfs[{q}, 1] - nfs[ip0, 1] + 2 * hx)"
 _POS = "c04_offr({L}, {p}) + {c}"
-_TMPROWS = lambda lim: "forall(0, %s, lambda p: %s)" % (lim, _rowis("curvature_preload_tmp", "curvature_indexes_tmp", "p", "toint(curvature_lengths[p])", "p, {c}"))
+_TMPROWS = lambda lim: "forall(0, %s, lambda p: %s)" % (lim, _rowis("curvature_preload_tmp", "curvature_indexes_tmp", "p", "toint(curvature_lengths[p])", "p, {c}",
+                                                                     pat=_PT.format(p="p", c="{c}")))
 _RESROWS = lambda lim: "forall(0, %s, lambda p: %s)" % (lim, _rowis(
     "curvature_preload", "curvature_indexes", "p", "toint(curvature_lengths[p])", _POS.format(L="curvature_lengths", p="p", c="{c}"),
-    pat="curvature_indexes[" + _POS.format(L="curvature_lengths", p="p", c="{c}") + "]"))
+    pat=_PT.format(p="p", c="{c}")))
 contract(
     IU + "w_tilde_curvature_preload_imaging_from", props=["C04"],
     types=_WT3, returns="(real[1],real[1],real[1])", let=_NAT,
@@ -913,22 +917,27 @@ contract(
              # lengths: the number of partners q >= p with a non-zero stored overlap, as integer-valued floats
              _LENOK.format(lim="N", L="result[2]"),
              "result[0].shape[0] == c04_offr(result[2], N) and result[1].shape[0] == result[0].shape[0]",
+             # every stored partner is an (integer-valued) slim pixel index
+             "forall(0, result[1].shape[0], lambda e: isint(result[1][e]) and 0 <= toint(result[1][e]) and toint(result[1][e]) < N)",
              # row p of the concatenated tables lists (partner, W'[p, partner]) for ALL partners with W'[p,q] != 0, in increasing order
              "forall(0, N, lambda p: " + _rowis("result[0]", "result[1]", "p", "toint(result[2][p])", _POS.format(L="result[2]", p="p", c="{c}"),
-                                                 pat="result[1][" + _POS.format(L="result[2]", p="p", c="{c}") + "]") + ")"],
+                                                 pat=_PT.format(p="p", c="{c}")) + ")"],
     loops={
         0: {"inv": [_LENOK.format(lim="ip0", L="curvature_lengths"), _TMPROWS("ip0")]},
         1: {"inv": [_TMPROWS("ip0"),
                     "0 <= kernel_index and kernel_index <= ip1 - ip0 and kernel_index <= " + _OS,
                     "kernel_index <= " + _NZ.format(p="ip0", q="ip1") + " and kernel_index >= " + _NZ.format(p="ip0", q="ip1"),
-                    _rowis("curvature_preload_tmp", "curvature_indexes_tmp", "ip0", "kernel_index", "ip0, {c}"),
+                    _rowis("curvature_preload_tmp", "curvature_indexes_tmp", "ip0", "kernel_index", "ip0, {c}", pat=_PT.format(p="ip0", c="{c}")),
                     # index safety of the temporary row: partners inside the (2Ky-1) x (2Kx-1) window are ranked by their window position
                     "forall(ip1, N, lambda q: implies(" + _INWIN.format(q="q") + ", kernel_index <= " + _RANK.format(q="q") + "))"]},
-        2: {"inv": ["index == c04_offr(curvature_lengths, i)", _RESROWS("i")]},
-        3: {"inv": ["index <= c04_offr(curvature_lengths, i) + data_index and index >= c04_offr(curvature_lengths, i) + data_index",
-                    _RESROWS("i"),
+        2: {"inv": ["index == c04_offr(curvature_lengths, i)", _RESROWS("i"), "forall(0, index, lambda e: isint(curvature_indexes[e]) and 0 <= toint(curvature_indexes[e]) and toint(curvature_indexes[e]) < N)"]},
+        3: {"inv": ["index == c04_offr(curvature_lengths, i) + data_index",
+                    _RESROWS("i"), "forall(0, index, lambda e: isint(curvature_indexes[e]) and 0 <= toint(curvature_indexes[e]) and toint(curvature_indexes[e]) < N)",
                     _rowis("curvature_preload", "curvature_indexes", "i", "data_index", _POS.format(L="curvature_lengths", p="i", c="{c}"),
-                           pat="curvature_indexes[" + _POS.format(L="curvature_lengths", p="i", c="{c}") + "]")]},
+                           pat=_PT.format(p="i", c="{c}"))],
+            # the entry being copied is the data_index-th partner of pixel i (brings the partner term into the proof context)
+            "assert_at": {0: ["curvature_indexes_tmp[i, data_index] == " + _PT.format(p="i", c="data_index")
+                              + " and i <= " + _PT.format(p="i", c="data_index") + " and " + _PT.format(p="i", c="data_index") + " < N"]}},
     },
     sentence={"c04_part": "the preload is an exact sparse encoding of the upper triangle of W with the diagonal halved: row p lists, in increasing "
                           "order of q >= p, exactly the pixel pairs with W'[p,q] != 0 -- every non-zero overlap whatever its sign -- with their values"},
@@ -948,3 +957,50 @@ def _g_preload(rng, tier):
 
 CONTRACTS[IU + "w_tilde_curvature_preload_imaging_from"].gen = _g_preload
 CONTRACTS[IU + "w_tilde_curvature_preload_imaging_from"].nontrivial = lambda kernel_native, **kw: bool((kernel_native < 0).any())
+
+# ------------------------------------------------------------------------------------------------
+# dense w-tilde curvature matrix F = M^T W M  (np.dot / .T : outside the engine-A subset -> engine C only)
+# ------------------------------------------------------------------------------------------------
+contract(
+    VU + "curvature_matrix_via_w_tilde_from", props=["C04"], mode="bounded",
+    types={"w_tilde": "real[2]", "mapping_matrix": "real[2]"}, returns="real[2]",
+    let={"N": "mapping_matrix.shape[0]", "P": "mapping_matrix.shape[1]"},
+    requires=["w_tilde.shape[0] == N", "w_tilde.shape[1] == N"],
+    ensures=["result.shape[0] == P", "result.shape[1] == P",
+             "forall(0, P, lambda i: forall(0, P, lambda j: result[i, j] == sumto(N, lambda p: sumto(N, lambda q:"
+             " mapping_matrix[p, i] * w_tilde[p, q] * mapping_matrix[q, j]))))"],
+    note="bounded only: the body is np.dot(mapping_matrix.T, np.dot(w_tilde, mapping_matrix)); `.T` of a 2-D array is an attribute "
+         "(no extension hook) and np.dot is a BLAS call, so there is no loop to put an invariant on",
+    sentence={"sumto": "the dense w-tilde curvature matrix is M^T W M"},
+)
+
+
+def _g_fdense(rng, tier):
+    for _ in range(gens.budget(tier, 200, 2000)):
+        n, p = rng.randint(0, 4), rng.randint(0, 3)
+        # (no 1e8-scale specials: cancelling O(1e16) terms would only test float round-off against the 1e-9 tolerance of engine C)
+        yield {"w_tilde": gens.reals(rng, (n, n), -3, 3, special=False), "mapping_matrix": gens.reals(rng, (n, p), -2, 2, special=False)}
+
+
+CONTRACTS[VU + "curvature_matrix_via_w_tilde_from"].gen = _g_fdense
+
+# ------------------------------------------------------------------------------------------------
+# corollaries over the contracts
+# ------------------------------------------------------------------------------------------------
+# the preload tables, converted with .astype("int") as Imaging.w_tilde does, satisfy every precondition of the curvature routine,
+# and the curvature matrix obtained from them is symmetric
+_ASI = "arr1(pre[1].shape[0], lambda e: toint(pre[1][e]))"
+_ASL = "arr1(pre[2].shape[0], lambda j: toint(pre[2][j]))"
+corollary(
+    "C04:preload-feeds-curvature", props=["C04"],
+    vars={**_WT3, **_UTY, "pix_pixels": "int"},
+    let={**_NAT, "P": "pix_pixels"},
+    requires=_NATREQ + [_SORTED, "pix_pixels >= 0"] + _ut("data_to_pix_unique", "data_weights", "pix_lengths", "N", "P"),
+    calls=[("pre", IU + "w_tilde_curvature_preload_imaging_from",
+            {"noise_map_native": "noise_map_native", "kernel_native": "kernel_native", "native_index_for_slim_index": "native_index_for_slim_index"}),
+           ("F", IU + "curvature_matrix_via_w_tilde_curvature_preload_imaging_from",
+            {"curvature_preload": "pre[0]", "curvature_indexes": _ASI, "curvature_lengths": _ASL,
+             "data_to_pix_unique": "data_to_pix_unique", "data_weights": "data_weights", "pix_lengths": "pix_lengths", "pix_pixels": "pix_pixels"})],
+    ensures=["F.shape[0] == P and F.shape[1] == P", "forall(0, P, lambda a: forall(0, P, lambda b: F[a, b] == F[b, a]))"],
+    sentence="the w-tilde preload (every non-zero overlap, whatever its sign) is a valid input of the curvature routine; the resulting curvature matrix is symmetric",
+)
